@@ -61,20 +61,37 @@ def _mat_job(job):
             eadj = adj * (du / u)[None, :]          # adj(A) adj(U)
         site_sfx = f"n={n}/{path}/{dtype}"
         case = {"n": n, "batch_shape": list(shape), "dtype": dtype}
-        for name, fn, exp in (("det", det, ed), ("adjugate", adjugate, eadj)):
-            try:
-                got = fn(x.copy())
-            except Exception as e:  # noqa: BLE001
-                out.append(dict(site=f"{name}/{site_sfx}", stratum=f"n={n}/{path}", case=case,
-                                expected="a result", observed=f"raised {type(e).__name__}: {e}"))
-                continue
-            if not close(got, exp):
-                bad = np.argwhere(~(np.abs(np.asarray(got) - exp) <= TOL * np.maximum(1, np.abs(exp))))
-                j = tuple(bad[0][: len(shape)]) if len(bad) else (0,) * len(shape)
-                st = "singular" if (d[j] == 0) else f"n={n}/{path}"
-                out.append(dict(site=f"{name}/{site_sfx}", stratum=st,
-                                case={**case, "M": x[j].tolist() if dtype != "complex" else str(x[j].tolist())},
-                                expected=str(np.asarray(exp)[j].tolist()), observed=str(np.asarray(got)[j].tolist())))
+        # the same values in other memory layouts: matrices stored column-major (a transposed view of the transposed copy),
+        # batch axes permuted (a view), a read-only array
+        def layouts(arr):
+            yield "", arr.copy()
+            yield "/column-major-view", np.swapaxes(np.ascontiguousarray(np.swapaxes(arr, -1, -2)), -1, -2)
+            if len(shape) >= 2:
+                yield "/permuted-batch-axes-view", np.swapaxes(np.ascontiguousarray(np.swapaxes(arr, 0, 1)), 0, 1)
+            ro = arr.copy()
+            ro.setflags(write=False)
+            yield "/read-only", ro
+        for nm, fn, exp in (("det", det, ed), ("adjugate", adjugate, eadj)):
+            for lay, xin in layouts(x):
+                name = nm + lay
+                try:
+                    keep = np.array(xin, copy=True)
+                    got = fn(xin)
+                    if not np.array_equal(np.asarray(xin), keep):
+                        out.append(dict(site=f"{name}/{site_sfx}", stratum=f"n={n}/{path}", case=case,
+                                        expected="the argument is left unchanged", observed="the argument array was modified"))
+                        continue
+                except Exception as e:  # noqa: BLE001
+                    out.append(dict(site=f"{name}/{site_sfx}", stratum=f"n={n}/{path}", case=case,
+                                    expected="a result", observed=f"raised {type(e).__name__}: {e}"))
+                    continue
+                if not close(got, exp):
+                    bad = np.argwhere(~(np.abs(np.asarray(got) - exp) <= TOL * np.maximum(1, np.abs(exp))))
+                    j = tuple(bad[0][: len(shape)]) if len(bad) else (0,) * len(shape)
+                    st = "singular" if (d[j] == 0) else f"n={n}/{path}"
+                    out.append(dict(site=f"{name}/{site_sfx}", stratum=st,
+                                    case={**case, "M": x[j].tolist() if dtype != "complex" else str(x[j].tolist())},
+                                    expected=str(np.asarray(exp)[j].tolist()), observed=str(np.asarray(got)[j].tolist())))
         # inv on the non-singular part of the batch (same batch shape class: pad by repeating)
         ns = np.flatnonzero(d.reshape(-1) != 0)
         if len(ns):
@@ -83,6 +100,10 @@ def _mat_job(job):
             ei = (eadj.reshape((m, n, n))[idx] / ed.reshape(-1)[idx][:, None, None]).reshape(shape + (n, n))
             try:
                 got = inv(xi.copy())
+                got_cm = inv(np.swapaxes(np.ascontiguousarray(np.swapaxes(xi, -1, -2)), -1, -2))      # column-major matrices
+                if not close(got_cm, ei):
+                    out.append(dict(site=f"inv/column-major-view/{site_sfx}", stratum=f"n={n}/{path}", case=case,
+                                    expected="the inverses", observed=str(np.asarray(got_cm).reshape(-1, n, n)[0].tolist())))
                 if not close(got, ei):
                     bad = np.argwhere(~(np.abs(np.asarray(got) - ei) <= TOL * np.maximum(1, np.abs(ei))))
                     j = tuple(bad[0][: len(shape)])
